@@ -22,6 +22,7 @@ def main(tier, seed, replay):
         k.must_find("MC_Vis_F14", mc_consts(impl="ImplF14", policy="white", kinds=("spawn", "setvis"), ops=5), inv)
         tr = k.validate_profile("vis_black", 150, extra_monitors=VM, extra_fields=VF)
         k.validate_profile("vis_white", 150, extra_monitors=VM, extra_fields=VF)
+        k.validate_profile("rel_vis", 100, extra_monitors=VM, extra_fields=VF, known=("F20", "F17"))
         k.validate_profile("kf_f20", 1, known=("F20",))
     else:
         for pol in ("black", "white"):
@@ -33,6 +34,7 @@ def main(tier, seed, replay):
         k.must_find("MC_Vis_F14", mc_consts(impl="ImplF14", policy="white", kinds=("spawn", "setvis"), ops=5), inv)
         tr = k.validate_profile("vis_black", 3000, extra_monitors=VM, extra_fields=VF)
         k.validate_profile("vis_white", 3000, extra_monitors=VM, extra_fields=VF)
+        k.validate_profile("rel_vis", 1500, extra_monitors=VM, extra_fields=VF, known=("F20", "F17"))
         k.validate_profile("kf_f20", 1, known=("F20",))
     k.selftest(tr)
     return k.finish(assumptions=[
